@@ -12,6 +12,7 @@ The regenerated closed-form determinant/inverse theorems live in `Pyiga.Gen.DetI
 import Pyiga.Proofs.GalerkinAsm
 import Pyiga.Proofs.GalerkinKron
 import Pyiga.Proofs.GalerkinKron3
+import Pyiga.Proofs.GalerkinTprod
 import Mathlib.LinearAlgebra.Matrix.Determinant.Basic
 import Mathlib.Tactic.NormNum
 
@@ -474,6 +475,171 @@ theorem gauss_nodes_inside (a b : α) (x w : List α) (hab : a < b) (hx : ∀ xi
   exact gauss_node_inside a b xi hab (hx xi hxi).1 (hx xi hxi).2
 
 end Field
+
+/-! ## n-D `inner_products` / `integrate`, tensor-product and boundary quadrature -/
+
+section Tprod
+open Pyiga.Index
+variable {α : Type} [CommRing α]
+
+/-- **tensor-product weights = outer product of the 1-D weights** (every dimension): the raveled
+weight array of `apply_tprod([Diag(w_k)], ·)` holds `∏_k w_k[q_k]` at the C-order index of `q`. -/
+theorem tensor_weights_outer (ws : List (List α)) (q : List Nat) (hne : ws ≠ [])
+    (hq : Below q (ws.map List.length)) :
+    (tensorWeights ws).getD (toSeq q (ws.map List.length)) 0 = wprod ws q :=
+  getD_tensorWeights ws q hne hq
+
+/-- … and they sum to the product of the 1-D sums -/
+theorem tensor_weights_sum (ws : List (List α)) (hne : ws ≠ []) :
+    (tensorWeights ws).sum = (ws.map List.sum).prod := sum_tensorWeights ws hne
+
+/-- `tensor.apply_tprod([C₀ᵀ, C₁ᵀ, …], X)` as modelled: the nested sum over all node multi-indices,
+for any number of axes. -/
+theorem apply_tprod_T_spec (Cs : List (List (List α))) (x : List α) (i : List Nat) (g : List Nat → α)
+    (hlen : x.length = prod (Cs.map List.length))
+    (hx : ∀ q, Below q (Cs.map List.length) → x.getD (toSeq q (Cs.map List.length)) 0 = g q)
+    (hi : Below i (Cs.map matCols)) :
+    (applyTprodT Cs x).getD (toSeq i (Cs.map matCols)) 0 = nestSum Cs i g :=
+  applyTprodT_spec Cs x i g hlen hx hi
+
+/-- **`inner_products` without geometry, every dimension**: entry `i = (i₀,…)` (C order) is
+`Σ_{q₀} C₀[q₀,i₀] Σ_{q₁} C₁[q₁,i₁] … (∏_k w_k[q_k]) · f[q]`  =  `(Cᵀ (w ⊙ f))[i]`. -/
+theorem inner_products_spec (Cs : List (List (List α))) (ws : List (List α)) (fv : List α)
+    (hne : Cs ≠ []) (hw : ws.map List.length = Cs.map List.length)
+    (hf : fv.length = prod (Cs.map List.length)) (i : List Nat) (hi : Below i (Cs.map matCols)) :
+    (innerProducts Cs ws fv none).getD (toSeq i (Cs.map matCols)) 0 =
+      nestSum Cs i (fun q => wprod ws q * fv.getD (toSeq q (Cs.map List.length)) 0) := by
+  have hws : ws ≠ [] := by
+    intro h; rw [h] at hw; simp at hw; exact hne (by simpa using hw.symm)
+  have hT := length_tensorWeights ws hws
+  rw [hw] at hT
+  unfold innerProducts weightedVals
+  simp only
+  apply applyTprodT_spec Cs _ i _ (by rw [List.length_zipWith, hT, hf, Nat.min_self]) _ hi
+  intro q hq
+  rw [getD_zipWith_mul, ← hw, getD_tensorWeights ws q hws (by rw [hw]; exact hq)]
+
+end Tprod
+
+section TprodOrdered
+open Pyiga.Index
+variable {α : Type} [CommRing α] [LinearOrder α] [IsStrictOrderedRing α]
+
+/-- the model's `np.abs` is the absolute value -/
+theorem absVal_eq_abs (x : α) : absVal x = |x| := by
+  unfold absVal
+  split
+  · rename_i h; exact (abs_of_neg h).symm
+  · rename_i h; exact (abs_of_nonneg (not_lt.mp h)).symm
+
+theorem getD_map_absVal (d : List α) (k : Nat) : (d.map absVal).getD k 0 = |d.getD k 0| := by
+  simp only [List.getD_eq_getElem?_getD, List.getElem?_map]
+  cases h : d[k]? with
+  | none => simp
+  | some v => simp [absVal_eq_abs]
+
+/-- **`inner_products` with geometry, every dimension, including the sign**: the signed Jacobian
+determinants enter through `|·|`:  entry `i` is
+`Σ_{q₀} C₀[q₀,i₀] … (∏_k w_k[q_k]) · f[q] · |det J[q]|`  =  `(Cᵀ (w ⊙ f ⊙ |det J|))[i]`. -/
+theorem inner_products_geo_spec (Cs : List (List (List α))) (ws : List (List α)) (fv dets : List α)
+    (hne : Cs ≠ []) (hw : ws.map List.length = Cs.map List.length)
+    (hf : fv.length = prod (Cs.map List.length)) (hd : dets.length = prod (Cs.map List.length))
+    (i : List Nat) (hi : Below i (Cs.map matCols)) :
+    (innerProductsGeo Cs ws fv dets).getD (toSeq i (Cs.map matCols)) 0 =
+      nestSum Cs i (fun q => wprod ws q * fv.getD (toSeq q (Cs.map List.length)) 0 *
+        |dets.getD (toSeq q (Cs.map List.length)) 0|) := by
+  have hws : ws ≠ [] := by
+    intro h; rw [h] at hw; simp at hw; exact hne (by simpa using hw.symm)
+  have hT := length_tensorWeights ws hws
+  rw [hw] at hT
+  unfold innerProductsGeo innerProducts weightedVals
+  simp only
+  apply applyTprodT_spec Cs _ i _
+    (by rw [List.length_zipWith, List.length_zipWith, List.length_map, hT, hf, hd, Nat.min_self, Nat.min_self]) _ hi
+  intro q hq
+  rw [getD_zipWith_mul, getD_zipWith_mul, getD_map_absVal, ← hw,
+    getD_tensorWeights ws q hws (by rw [hw]; exact hq)]
+
+/-- **`integrate` with geometry, every dimension (in particular 3-D)**: `Σ_q w[q] · f[q] · |det J[q]|`
+over all raveled nodes, where `w = tensorWeights ws` is the outer product of the 1-D weights
+(`tensor_weights_outer`). -/
+theorem integrate_geo_spec (ws : List (List α)) (fv dets : List α) (P : Nat)
+    (hT : (tensorWeights ws).length = P) (hf : fv.length = P) (hd : dets.length = P) :
+    integrateGeo ws fv dets =
+      ∑ k ∈ range P, (tensorWeights ws).getD k 0 * fv.getD k 0 * |dets.getD k 0| := by
+  unfold integrateGeo integrate weightedVals
+  simp only
+  rw [list_sum_eq_range, List.length_zipWith, List.length_zipWith, List.length_map, hT, hf, hd,
+    Nat.min_self, Nat.min_self]
+  apply Finset.sum_congr rfl; intro k _
+  rw [getD_zipWith_mul, getD_zipWith_mul, getD_map_absVal]
+
+/-- non-negative data give a non-negative integral for **either orientation** of the geometry -/
+theorem integrate_geo_nonneg (ws : List (List α)) (fv dets : List α) (P : Nat)
+    (hT : (tensorWeights ws).length = P) (hf : fv.length = P) (hd : dets.length = P)
+    (hw : ∀ k < P, 0 ≤ (tensorWeights ws).getD k 0) (hfv : ∀ k < P, 0 ≤ fv.getD k 0) :
+    0 ≤ integrateGeo ws fv dets := by
+  rw [integrate_geo_spec ws fv dets P hT hf hd]
+  apply Finset.sum_nonneg; intro k hk
+  have hk' := Finset.mem_range.mp hk
+  exact mul_nonneg (mul_nonneg (hw k hk') (hfv k hk')) (abs_nonneg _)
+
+end TprodOrdered
+
+/-- non-vacuity, orientation-reversing geometry: 2×1 nodes, weights `[1,1]⊗[2]`, `f = 1`, signed
+`det J = −3/2` at both nodes: the model integrates to the positive measure `2·(1+1)·3/2 = 6`, and the
+inner products with a 1×1 collocation pair are positive. -/
+example : integrateGeo [[1, 1], [2]] [1, 1] [(-3/2 : ℚ), -3/2] = 6 ∧
+    innerProductsGeo [[[1], [1]], [[1]]] [[1, 1], [2]] [1, 1] [(-3/2 : ℚ), -3/2] = [6] := by
+  constructor <;> decide +kernel
+
+section Quad
+open Pyiga.Index
+variable {α : Type} [CommRing α]
+
+/-- `make_tensor_quadrature`: nodes and weights are the per-axis iterated rules -/
+theorem tensor_quadrature_axes (half : α) (xg wg : List α) (meshes : List (List α)) :
+    tensorQuadrature half xg wg meshes =
+      (meshes.map fun m => (iteratedQuadrature half xg wg m).1,
+       meshes.map fun m => (iteratedQuadrature half xg wg m).2) := by
+  simp [tensorQuadrature, List.map_map, Function.comp_def]
+
+/-- **`make_tensor_quadrature`: the tensor-product weights (outer product of the per-axis weights)
+sum to the measure of the parameter box** `∏_k (b_k − a_k)` — any number of axes, any meshes
+(each given as first point and rest), Gauss weights with `½·Σw = 1`. -/
+theorem tensor_quadrature_measure (half : α) (xg wg : List α) (ms : List (α × List α)) (hne : ms ≠ [])
+    (hw : half * wg.sum = 1) :
+    (tensorWeights (tensorQuadrature half xg wg (ms.map fun m => m.1 :: m.2)).2).sum =
+      (ms.map fun m => (m.1 :: m.2).getLast (by simp) - m.1).prod := by
+  rw [tensor_quadrature_axes, sum_tensorWeights _ (by simpa using hne)]
+  simp only [List.map_map]
+  congr 1
+  apply List.map_congr_left
+  intro m _
+  exact gauss_weights_sum half xg wg m.1 m.2 hw
+
+/-- **`make_boundary_quadrature`**: on axis `bdax` the rule is the single node `mesh[0]` (side 0) or
+`mesh[-1]` with weight 1; the other axes keep their iterated rule … -/
+theorem boundary_quadrature_axes (half : α) (xg wg : List α) (meshes : List (List α)) (bdax side : Nat) (d : α) :
+    boundaryQuadrature half 1 xg wg meshes bdax side d =
+      ((meshes.map fun m => (iteratedQuadrature half xg wg m).1).set bdax
+          [if side = 0 then (meshes.getD bdax []).getD 0 d else (meshes.getD bdax []).getLastD d],
+       (meshes.map fun m => (iteratedQuadrature half xg wg m).2).set bdax [1]) := by
+  simp [boundaryQuadrature, List.map_set, List.map_map, Function.comp_def]
+
+/-- … so **the boundary weights sum to the measure of the face**: `∏_{k ≠ bdax} (b_k − a_k)`. -/
+theorem boundary_quadrature_measure (half : α) (xg wg : List α) (ms : List (α × List α)) (hne : ms ≠ [])
+    (bdax side : Nat) (d : α) (hw : half * wg.sum = 1) :
+    (tensorWeights (boundaryQuadrature half 1 xg wg (ms.map fun m => m.1 :: m.2) bdax side d).2).sum =
+      ((ms.map fun m => (m.1 :: m.2).getLast (by simp) - m.1).set bdax 1).prod := by
+  rw [boundary_quadrature_axes, sum_tensorWeights _ (by simpa using hne)]
+  simp only [List.map_map, List.map_set, List.sum_singleton]
+  congr 2
+  apply List.map_congr_left
+  intro m _
+  exact gauss_weights_sum half xg wg m.1 m.2 hw
+
+end Quad
 
 /-! ## non-vacuity -/
 
